@@ -5,9 +5,10 @@ ID = 'C12'
 RULE = ('three streams. (a) byte level, compared with the Lean model: crc32fast::hash vs crc32 on random/structured buffers (every length 0..64, lengths to 4096), and DataView::<T>::using on frames built '
         'from arbitrary bodies for five message types with root sizes 4/8/64/12/..: valid frames, every single-bit flip of small frames, every truncation, extensions, frames with valid CRC but shorter than the '
         'root (incl. the 4-byte frame of the empty body). (b) value level on the implementation: Payload/Status values (empty, nested, up to 1 MiB) a message that is one big Vec<String> (0..5000 elements, around the 16 KiB scratch tier) and narrow types (u8, bool, u16, [u8;3], [u8;5], [u8;7]: roots with alignment 1-2 and odd sizes) through to_view_bytes -> DataView::using -> deserialize_view, '
-        'with EVERY single-bit flip (exhaustive up to 2 KiB frames, strided above), every truncation and some extensions of the real frame. (c) end to end over loopback: echo handler and error handler, and bursts of 2-24 concurrent echo requests of up to 200 KB over ONE connection. '
+        'with EVERY single-bit flip (exhaustive up to 2 KiB frames, strided above), every truncation and some extensions of the real frame. (c) end to end over loopback: echo handler and error handler, messages of 1-9 MiB, and bursts of 2-24 concurrent echo requests of up to 200 KB over ONE connection; '
+        'frames over the WIRE (rawframe): the frame of a message - intact, truncated anywhere, one bit flipped - sent through the real client, transport and server in 1-4 chunks under an announced content-length that is absent, true or a lie (small, 2^40, 2^60, 2^63): refused unless intact, no handler run on a bad frame, no panic anywhere in the process; CRC-valid frames with 0-33 stray bytes in front of the root for every type (refused unless the root position is aligned). '
         'non-trivial = a case containing both accepted and rejected frames, or a value round trip; distinct by hash')
-ASSUMPTIONS = ['accepted frames always have a 16-byte aligned root (true of every frame to_view_bytes produces; a mis-aligned root is undefined behaviour inside rkyv::archived_root and is not generated)', 'rkyv (de)serialisation is a codec pair with dec(enc v) = v; its layout, alignment and the unchecked cast are outside the Lean model (observed by stream (b), not proved)',
+ASSUMPTIONS = ['since fix D35 no assumption about the position of the root: frames with a matching checksum and 0-33 stray bytes in front of the root are generated for every message type, and refused unless the root position is aligned for the type (checkFrameA)', 'rkyv (de)serialisation is a codec pair with dec(enc v) = v; its layout, alignment and the unchecked cast are outside the Lean model (observed by stream (b), not proved)',
                'crc32fast is modelled bitwise (CRC-32/ISO-HDLC) and tied by stream (a); its SIMD/table implementation is not verified',
                'hyper/h2 over loopback for stream (c)']
 TRUSTED_BASE = ['correspondence: dcharness (real crc32fast, DataView::using, to_view_bytes, RpcClient/Server) vs dcdriver (Datacake.Rpc.crc32 / checkFrame)']
